@@ -53,6 +53,14 @@ def mk_not(f):
     return ("not", f)
 
 
+def _dedupe(xs):
+    out = []
+    for x in xs:
+        if x not in out:
+            out.append(x)
+    return out
+
+
 def mk_and(fs):
     out = []
     for f in fs:
@@ -64,6 +72,10 @@ def mk_and(fs):
             out.extend(f[1])
         else:
             out.append(f)
+    out = _dedupe(out)
+    for f in out:
+        if mk_not(f) in out:
+            return Fa
     if not out:
         return T
     if len(out) == 1:
@@ -82,6 +94,10 @@ def mk_or(fs):
             out.extend(f[1])
         else:
             out.append(f)
+    out = _dedupe(out)
+    for f in out:
+        if mk_not(f) in out:
+            return T
     if not out:
         return Fa
     if len(out) == 1:
